@@ -173,7 +173,7 @@ __CPROVER_ensures((!AITO_REFUSED && !constant_key) ==> (g_dup_calls == 1 && g_du
 __CPROVER_ensures((!AITO_REFUSED && !constant_key && g_dup_ret == NULL) ==> (!RET && item->string == __CPROVER_old(item->string) && item->type == __CPROVER_old(item->type) && g_aita_calls == 0 && g_hook_frees == __CPROVER_old(g_hook_frees))) /*@C08 C06*/
 __CPROVER_ensures((!AITO_REFUSED && !constant_key && g_dup_ret != NULL) ==> (item->string == (char*)g_dup_ret && item->type == (__CPROVER_old(item->type) & ~cJSON_StringIsConst))) /*@C06 C07*/
 /* the old key is released exactly when the item owned it, and only after the new key exists */
-__CPROVER_ensures((!AITO_REFUSED && (constant_key || g_dup_ret != NULL) && !g_alias) ==> (OLD_KEY_OWNED ? __CPROVER_was_freed(__CPROVER_old(item->string)) : g_hook_frees == __CPROVER_old(g_hook_frees))) /*@C07*/
+__CPROVER_ensures((!AITO_REFUSED && (constant_key || g_dup_ret != NULL) && !g_alias) ==> (OLD_KEY_OWNED ? __CPROVER_was_freed(__CPROVER_old(item->string)) : g_hook_frees == __CPROVER_old(g_hook_frees))) /*@C07 C14*/
 /* then the item is appended to the object exactly once and that verdict is returned */
 __CPROVER_ensures((!AITO_REFUSED && (constant_key || g_dup_ret != NULL)) ==> (g_aita_calls == 1 && g_aita_array == object && g_aita_item == item && RET == g_aita_ret)) /*@C06*/
 __CPROVER_ensures(RET == 0 || RET == 1) /*@C06*/
